@@ -154,6 +154,7 @@ func H_C01_sign() {
 func H_C01_countersign() {
 	c07Start(6)
 	kp := mkC01Pair("k", 0)
+	c10LeanParent = vTier() == 0
 	pi := mkC10Parent("parent")
 	ext := c07External()
 	parent := pi.parent
